@@ -144,6 +144,9 @@ func DecodeHEVCDecConfRec(data []byte) (DecConfRec, error) {
 		for i := 0; i < numNalus; i++ {
 			naluLength := int(sr.ReadUint16())
 			array.Nalus = append(array.Nalus, sr.ReadBytes(naluLength))
+			if sr.AccError() != nil { // truncated record: do not keep counting
+				return hdcr, sr.AccError()
+			}
 		}
 		hdcr.NaluArrays = append(hdcr.NaluArrays, array)
 	}
